@@ -35,6 +35,8 @@ OUTERS = {
     # a part nested by value and a reference of the same class: the part can be lent to the reference field
     "O13": [("inner", ("hyb", "Inner")), ("r", ("ref", "Inner"))],
     "O14": [("mid", ("hyb", "MidR")), ("t", ("sc", "Float64"))],
+    # a UNION reference field (members Inner, InnerS) bound to dressed objects
+    "O15": [("u", ("ref", "Inner", "union")), ("k", ("sc", "Int64"))],
 }
 RENAMES = ["none", "first", "all"]
 
@@ -59,7 +61,7 @@ def shards(tier, seed):
     common.quiet()
     out = []
     for o in sorted(OUTERS):
-        for r in RENAMES:
+        for r in RENAMES + (["inner"] if any(fs[0] == "hyb" for _, fs in OUTERS[o]) else []):
             out += [(o, r, i) for i in range(len(World(o, r).events()))]
     return out[seed % len(out):] + out[: seed % len(out)]
 
@@ -85,11 +87,15 @@ def get_classes(oname, rename):
             return getattr(xo, spec[1])[sh if len(sh) > 1 else sh[0]]
         if spec[0] == "hyb":
             return inner[spec[1]]
+        if spec[0] == "ref" and len(spec) > 2:
+            return type("Un" + spec[1], (xo.UnionRef,), {"_reftypes": [inner[spec[1]]._XoStruct, inner["InnerS"]._XoStruct]})
         if spec[0] == "ref":
             return xo.Ref(inner[spec[1]])
 
     for nm, fields in INNERS.items():
-        inner[nm] = type(nm, (xo.HybridClass,), {"_xofields": {n: ftype(s) for n, s in fields}})
+        # variant "inner": the first field of every NESTED class has another python name
+        iren = {fields[0][0]: "py_" + fields[0][0]} if rename == "inner" else {}
+        inner[nm] = type(nm, (xo.HybridClass,), {"_xofields": {n: ftype(s) for n, s in fields}, "_rename": iren})
     fields = OUTERS[oname]
     ren = {}
     if rename == "first":
@@ -147,17 +153,17 @@ class World:
                 m = {fn: default_value(fs, 20 + len(self.helpers)) for fn, fs in INNERS[nm]}
                 if nm == "Inner2":
                     m = inner2_value(20 + len(self.helpers), SPLITS[where])
-                h = self.Inner[nm](_buffer=buf, **pycopy.deepcopy(m))
+                h = self.Inner[nm](_buffer=buf, **self.pykw(nm, m))
                 self.helpers[(nm, where)] = self.add(nm, h, m)
         # helpers that hold a reference refer to the Inner helper of their own buffer
         for (nm, where), hid in self.helpers.items():
             for fn, fs in INNERS[nm]:
                 if fs[0] == "ref":
                     tid = self.helpers[(fs[1], where)]
-                    setattr(self.objs[hid]["h"], fn, self.objs[tid]["h"])
+                    setattr(self.objs[hid]["h"], self.ipy(nm, fn), self.objs[tid]["h"])
                     self.objs[hid]["m"][fn] = ("id", tid)
         m = {fn: default_value(fs, 3 + i) for i, (fn, fs) in enumerate(OUTERS[oname])}
-        kw = {self.ren.get(fn, fn): pycopy.deepcopy(v) for fn, v in m.items()}
+        kw = {self.ren.get(fn, fn): self.pyval(dict(OUTERS[oname])[fn], v) for fn, v in m.items()}
         self.outer = self.add(oname, self.Outer(_buffer=self.B, **kw), m)
         self.copies = []
         self.extra = None
@@ -166,14 +172,42 @@ class World:
         self.sibling = None
         if any(fs[0] == "ref" for _, fs in OUTERS[oname]):
             m2 = {fn: default_value(fs, 7 + i) for i, (fn, fs) in enumerate(OUTERS[oname])}
-            kw2 = {self.ren.get(fn, fn): pycopy.deepcopy(v) for fn, v in m2.items()}
-            sib = self.Outer(_buffer=self.B, **kw2)
-            for fn, fs in OUTERS[oname]:
-                if fs[0] == "ref":
-                    sid = self.helpers[(fs[1], "same")]
-                    setattr(sib, self.ren.get(fn, fn), self.objs[sid]["h"])
-                    m2[fn] = ("id", sid)
+            kw2 = {self.ren.get(fn, fn): self.pyval(dict(OUTERS[oname])[fn], v) for fn, v in m2.items()}
+            if self.rename in ("first", "all"):
+                # the dressed objects are given to the CONSTRUCTOR, under the xo names of the (renamed) reference fields
+                for fn, fs in OUTERS[oname]:
+                    if fs[0] == "ref":
+                        sid = self.helpers[(fs[1], "same")]
+                        kw2.pop(self.ren.get(fn, fn), None)
+                        kw2[fn] = self.objs[sid]["h"]
+                        m2[fn] = ("id", sid)
+                        self.objs[sid]["movable"] = False
+                sib = self.Outer(_buffer=self.B, **kw2)
+            else:
+                sib = self.Outer(_buffer=self.B, **kw2)
+                for fn, fs in OUTERS[oname]:
+                    if fs[0] == "ref":
+                        sid = self.helpers[(fs[1], "same")]
+                        setattr(sib, self.ren.get(fn, fn), self.objs[sid]["h"])
+                        m2[fn] = ("id", sid)
             self.sibling = self.add(oname, sib, m2)
+
+    def ipy(self, cname, fn):
+        """python name of field fn of the nested class cname"""
+        return "py_" + fn if (self.rename == "inner" and INNERS[cname][0][0] == fn) else fn
+
+    def pykw(self, cname, m):
+        """a model dictionary of class cname (xo names) as keyword arguments / nested dictionaries with python names"""
+        out = {}
+        for fn, fs in INNERS[cname]:
+            if fn not in m:
+                continue
+            v = pycopy.deepcopy(m[fn])
+            out[self.ipy(cname, fn)] = self.pykw(fs[1], v) if (fs[0] == "hyb" and isinstance(v, dict)) else v
+        return out
+
+    def pyval(self, fs, v):
+        return self.pykw(fs[1], v) if fs[0] == "hyb" and isinstance(v, dict) else pycopy.deepcopy(v)
 
     def add(self, cname, h, model):
         i = len(self.objs) + 1
@@ -195,7 +229,8 @@ class World:
         return any(isinstance(v, tuple) and v[:2] == ("id", sid) for o in self.objs.values() for v in o["m"].values())
 
     def pyname(self, oid, fn):
-        return self.ren.get(fn, fn) if self.objs[oid]["cname"] == self.oname else fn
+        cn = self.objs[oid]["cname"]
+        return self.ren.get(fn, fn) if cn == self.oname else self.ipy(cn, fn)
 
     # ---- events
     def events(self):
@@ -212,6 +247,12 @@ class World:
                     ev.append(("nest-dict", oid, fn))
                     ev.append(("nest-hyb", oid, fn, "same"))
                     ev.append(("nest-hyb", oid, fn, "other"))
+                    # the source lives in a third buffer at the very offset the destination field has in its own buffer
+                    ev.append(("nest-hyb", oid, fn, "same-offset"))
+                    if holds_refs(fs[1]):
+                        # the source lives in a third buffer and its referent sits at the very offset at which the
+                        # duplicate of that referent is going to be allocated in the destination buffer
+                        ev.append(("nest-hyb", oid, fn, "coincident"))
                     ev.append(("through", oid, fn))
                     ev.append(("move-nested", oid, fn))
                 elif fs[0] == "ref":
@@ -232,7 +273,7 @@ class World:
             ev.append(("mutate-src", key))
         if self.sibling is not None:
             for key in sorted(self.helpers):
-                if any(fs == ("ref", key[0]) for _, fs in OUTERS[self.oname]):
+                if any(fs[:2] == ("ref", key[0]) for _, fs in OUTERS[self.oname]):
                     ev.append(("move-helper", key))
         # a copy of a PART (nested by value, or bound to a reference field) is an object of its own: it can be moved
         if self.extra is None:
@@ -278,12 +319,48 @@ class World:
             if fs == ("hyb", "Inner2"):
                 cur = o["m"][fn]
                 val = inner2_value(60 + n, (len(cur["x"]), len(cur["y"])))
-            setattr(o["h"], self.pyname(oid, fn), pycopy.deepcopy(val))
+            setattr(o["h"], self.pyname(oid, fn), self.pyval(fs, val))
             o["m"][fn] = val
         elif kind == "nest-hyb":
             _, oid, fn, where = ev
             o = self.objs[oid]
             fs = field_specs(o["cname"])[fn]
+            if where == "same-offset":
+                at = int(getattr(o["h"]._xobject, fn)._offset)
+                val = default_value(fs, 80 + n)
+                if fs == ("hyb", "Inner2"):
+                    cur = o["m"][fn]
+                    val = inner2_value(80 + n, (len(cur["x"]), len(cur["y"])))
+                G = place.traced("np", 0)
+                if at:
+                    G.allocate(at)
+                srch = self.Inner[fs[1]](_buffer=G, **self.pykw(fs[1], val))
+                self.coincident = (at, int(srch._offset))
+                self.keep = (G, srch)
+                setattr(o["h"], self.pyname(oid, fn), srch)
+                o["m"][fn] = val
+                return None
+            if where == "coincident":
+                rf, rs = [(a, b) for a, b in INNERS[fs[1]] if b[0] == "ref"][0]
+                tm = {a: default_value(b, 70 + n) for a, b in INNERS[rs[1]]}
+                probe = self.Inner[rs[1]](_buffer=place.traced("np", 0), **self.pykw(rs[1], tm))
+                size = int(probe._xobject._size)
+                dbuf = o["h"]._buffer
+                at = dbuf.allocate(size)  # where the next region of that size is going to be handed out
+                dbuf.free(at, size)
+                G = place.traced("np", 0)
+                if at:
+                    G.allocate(at)
+                tgt = self.Inner[rs[1]](_buffer=G, **self.pykw(rs[1], tm))
+                self.coincident = (int(at), int(tgt._offset))
+                sm = {a: (default_value(b, 75 + n) if b[0] != "ref" else None) for a, b in INNERS[fs[1]]}
+                srch = self.Inner[fs[1]](_buffer=G, **self.pykw(fs[1], sm))
+                setattr(srch, self.ipy(fs[1], rf), tgt)
+                self.keep = (G, tgt, srch)
+                setattr(o["h"], self.pyname(oid, fn), srch)
+                sm[rf] = ("dup", tm)
+                o["m"][fn] = sm
+                return None
             src = self.objs[self.helpers[(fs[1], where)]]
             if fs[1] == "Inner2" and (len(src["m"]["x"]), len(src["m"]["y"])) != (len(o["m"][fn]["x"]), len(o["m"][fn]["y"])):
                 # equal total size, other split between the two dynamic fields: every part keeps the room fixed at its
@@ -329,7 +406,7 @@ class World:
             child = getattr(o["h"], self.pyname(oid, fn))
             first = INNERS[fs[1]][0][0]
             val = 500 + n
-            setattr(child, first, val)
+            setattr(child, self.ipy(fs[1], first), val)
             if fs[0] == "hyb":
                 o["m"][fn][first] = val
             elif o["m"][fn][0] == "dup":
@@ -402,7 +479,7 @@ class World:
             s = self.objs[self.helpers[ev[1]]]
             first = INNERS[ev[1][0]][0][0]
             s["m"][first] = 900 + n
-            setattr(s["h"], first, 900 + n)
+            setattr(s["h"], self.ipy(ev[1][0], first), 900 + n)
         else:
             raise ValueError(ev)
         return None
@@ -418,7 +495,8 @@ def val_eq(a, b):
 def check_obj(w, oid, out, res, path=""):
     """mirror + model oracle for one tracked hybrid object"""
     o = w.objs[oid]
-    check_hybrid(w, o["cname"], o["h"], o["m"], lambda fn: w.pyname(oid, fn), out, res, "obj%d(%s)" % (oid, o["cname"]))
+    pn = (lambda fn: w.pyname(oid, fn)) if o["cname"] in OUTERS else (lambda fn: w.ipy(o["cname"], fn))
+    check_hybrid(w, o["cname"], o["h"], o["m"], pn, out, res, "obj%d(%s)" % (oid, o["cname"]))
 
 
 def check_hybrid(w, cname, h, m, pyname, out, res, label):
@@ -456,7 +534,7 @@ def check_hybrid(w, cname, h, m, pyname, out, res, label):
                 out.append(("C18.mirror", "dressed-child-detached", "%s.%s: dressed child at (%s,%d), container's field at (%s,%d)" % (label, fn, "same buffer" if pxo._buffer is xobj._buffer else "OTHER buffer", int(pxo._offset), "container buffer", int(xv._offset))))
                 continue
             if hasattr(pv, "_xobject"):
-                check_hybrid(w, fs[1], pv, m[fn], lambda f: f, out, res, label + "." + fn)
+                check_hybrid(w, fs[1], pv, m[fn], lambda f, c=fs[1]: w.ipy(c, f), out, res, label + "." + fn)
         elif fs[0] == "ref":
             mv = m[fn]
             if mv is None:
@@ -470,7 +548,7 @@ def check_hybrid(w, cname, h, m, pyname, out, res, label):
                 continue
             pxo = pv._xobject if hasattr(pv, "_xobject") else pv
             if pxo is None or pxo._buffer is not xv._buffer or int(pxo._offset) != int(xv._offset):
-                out.append(("C18.mirror", "attribute-differs-from-buffer", "%s.%s: attribute denotes offset %s, the buffer's reference resolves to %d" % (label, fn, None if pxo is None else int(pxo._offset), int(xv._offset))))
+                out.append(("C18.mirror", "attribute-differs-from-buffer", "%s.%s: attribute denotes offset %s%s, the buffer's reference resolves to %d" % (label, fn, None if pxo is None else int(pxo._offset), " of ANOTHER buffer" if (pxo is not None and pxo._buffer is not xv._buffer) else "", int(xv._offset))))
                 continue
             if xv._buffer is not xobj._buffer:
                 out.append(("C18.ownership", "reference-leaves-buffer", "%s.%s" % (label, fn)))
